@@ -453,6 +453,10 @@ class Engine:
                 elems += [self.box(k), self.box(v[k])]
             f = ufunc(f"dictkv{len(keys)}", *([Obj] * len(elems)), Obj)
             return f(*elems)
+        if isinstance(v, FiltV):
+            i = z3.Int("i!fv")
+            f = ufunc("filtered_list", z3.ArraySort(I, B), z3.ArraySort(I, Obj), I, Obj)
+            return f(z3.Lambda([i], _zb(self.to_bool(v.pred.at(self, i)))), z3.Lambda([i], self.box(v.elem.at(self, i))), v.n if is_z(v.n) else z3.IntVal(v.n))
         if isinstance(v, SymList):
             i = z3.Int("i!bx")
             v = SeqV(z3.Lambda([i], self.box(v.at(self, i))), v.n)
